@@ -23,8 +23,9 @@ def plan(tier):
     return dict(rounds=96, examples_per_round=60, wall_cap=420, job_timeout=600)
 
 
-_burn = st.one_of(st.sampled_from([0, 0, 1, 2]), st.integers(0, 40), st.sampled_from(["len-1", "len", "len+3", "len-2"]))
-_thin = st.one_of(st.sampled_from([1, 1, 2, 3]), st.integers(1, 12), st.sampled_from(["len+1"]))
+_burn = st.one_of(st.sampled_from([0, 0, 1, 2]), st.integers(0, 40), st.sampled_from(["len-1", "len", "len+3", "len-2"]),
+                  st.sampled_from([100, 257, 999, 1000, 2047]))
+_thin = st.one_of(st.sampled_from([1, 1, 2, 3]), st.integers(1, 12), st.sampled_from(["len+1"]), st.sampled_from([50, 100, 333]))
 
 
 @st.composite
@@ -35,7 +36,7 @@ def _scenario(draw, tier):
         if cfg["kind"] == "ensemble":
             k = draw(st.sampled_from(["advance", "advance", "restart"]))
             if k == "advance":
-                ops.append(["advance", draw(st.sampled_from([0, 1, 2, 3, 6]))])
+                ops.append(["advance", lc.maybe_long(draw, draw(st.sampled_from([0, 1, 2, 3, 6])), cfg)])
             else:
                 ops.append(["restart"])
         else:
@@ -43,7 +44,7 @@ def _scenario(draw, tier):
             if k == "step":
                 ops.append(["step"])
             elif k == "advance":
-                ops.append(["advance", draw(st.sampled_from([0, 1, 2, 5, 11, 30, 64]))])
+                ops.append(["advance", lc.maybe_long(draw, draw(st.sampled_from([0, 1, 2, 5, 11, 30, 64])), cfg)])
             elif k == "exchange":
                 ops.append(["exchange", draw(st.integers(0, 2 ** 16))])
             elif k == "scribble":
